@@ -66,13 +66,13 @@ type Value struct {
 
 var Nil = Value{K: KNil}
 
-func Bool(b bool) Value       { return Value{K: KBool, B: b} }
-func Int(i int) Value         { return Value{K: KInt, I: i} }
-func Str(s string) Value      { return Value{K: KStr, S: s} }
-func Kw(s string) Value       { return Value{K: KKw, S: s} }
-func Sym(s string) Value      { return Value{K: KSym, S: s} }
-func List(e ...Value) Value   { return Value{K: KList, Elems: e} }
-func Vec(e ...Value) Value    { return Value{K: KVec, Elems: e} }
+func Bool(b bool) Value        { return Value{K: KBool, B: b} }
+func Int(i int) Value          { return Value{K: KInt, I: i} }
+func Str(s string) Value       { return Value{K: KStr, S: s} }
+func Kw(s string) Value        { return Value{K: KKw, S: s} }
+func Sym(s string) Value       { return Value{K: KSym, S: s} }
+func List(e ...Value) Value    { return Value{K: KList, Elems: e} }
+func Vec(e ...Value) Value     { return Value{K: KVec, Elems: e} }
 func Opaque(kind string) Value { return Value{K: KOpaque, S: kind} }
 
 // MapOf builds a map from entries; later duplicates win.
